@@ -233,8 +233,18 @@ def gen_c04(rng, tier):
                         s.add("c%s settweak %d - %d" % (w, c, tl)); last = (None, tl)
                     else:
                         tl = rng.randint(1, bs); tw = rbytes(rng, tl)
+                        if last is not None and last[0] is not None and rng.random() < 0.45:
+                            # related to the tweak in force: a prefix of it, the same again, same head + new tail, ...
+                            prev = last[0] + bytes(bs - last[1])
+                            k_ = rng.randint(1, bs)
+                            tw = rng.choice([prev[:k_], prev, prev[:k_] + rbytes(rng, bs - k_), prev[:last[1]], bytes(k_)])
+                            tl = len(tw)
                         s.add("t%s settweak %d %s %d" % (w, t, hexs(tw), tl))
                         s.add("c%s settweak %d %s %d" % (w, c, hexs(tw), tl)); last = (tw, tl)
+                        if rng.random() < 0.5:
+                            # the CTR tweak API in the middle of a stream: the new tweak must govern all later output
+                            n1 = rng.randint(1, 9 * bs)
+                            s.add("c%s crypt %d %s %d" % (w, c, hexs(bytes(n1)), n1))
                     if rng.random() < 0.4:
                         s.add("t%s img %d" % (w, t))
                         s.add("t%s enc %d %s" % (w, t, hexs(rbytes(rng, bs))))
@@ -345,7 +355,7 @@ def gen_c05_one(rng, kind, be, tier, with_rekey=False, with_invalid=False):
     rng.shuffle(ctrs)
     first = True
     for it in range(n):
-        keyl = ctr_setkey_lines(rng, kind, a)
+        keyl = ctr_setkey_lines(rng, kind, a) if (it == 0 or rng.random() < 0.5) else []
         for l in keyl:
             s.add(l); s.add(l.replace(" %d " % a, " %d " % b, 1))
         if first:
@@ -686,12 +696,16 @@ def invalid_ops(rng, kind, o):
         L += ["%s settk %s - %d" % (kind, o, bs), "%s settk %s %s %d" % (kind, o, hexs(bytes(small)), small),
               "%s settk %s 00 %d" % (kind, o, rng.choice([2 * bs + 1, big])), "%s settk - %s %d" % (kind, hexs(bytes(bs)), bs),
               "%s settweak %s 00 0" % (kind, o), "%s settweak %s 00 %d" % (kind, o, rng.choice([bs + 1, big])),
+              "%s settweak %s - 0" % (kind, o), "%s settweak %s - %d" % (kind, o, rng.choice([bs + 1, big])),
+              "%s settk %s - %d" % (kind, o, rng.choice([0, big])),
               "%s settweak - 00 1" % kind]
     elif kind in ("c128", "c64"):
         L += ["%s setkey %s - %d" % (kind, o, bs), "%s setkey %s %s %d" % (kind, o, hexs(bytes(small)), small),
               "%s setkey %s 00 %d" % (kind, o, big), "%s settk %s - %d" % (kind, o, bs),
               "%s settk %s 00 %d" % (kind, o, rng.choice([2 * bs + 1, big])),
               "%s settweak %s 00 0" % (kind, o), "%s settweak %s 00 %d" % (kind, o, rng.choice([bs + 1, big])),
+              "%s settweak %s - 0" % (kind, o), "%s settweak %s - %d" % (kind, o, rng.choice([bs + 1, big])),
+              "%s setctr %s - %d" % (kind, o, rng.choice([bs + 1, big])), "%s setkey %s - %d" % (kind, o, rng.choice([0, big])),
               "%s setctr %s 00 %d" % (kind, o, rng.choice([bs + 1, big])),
               "%s crypt %s - 7" % (kind, o), "%s crypt %s 0102 2 outnull" % (kind, o), "%s crypt %s - 0 outnull" % (kind, o),
               "%s crypt - 00 1" % kind, "%s setkey - %s %d" % (kind, hexs(bytes(bs)), bs), "%s setctr - 00 1" % kind,
@@ -705,13 +719,15 @@ def invalid_ops(rng, kind, o):
               "%s enc - %s %d" % (kind, hexs(bytes(bs)), bs), "%s setkey - %s %d" % (kind, hexs(bytes(bs)), bs), "%s init -" % kind]
     elif kind == "mk":
         L += ["mk setkey %s - 16 6 1" % o, "mk setkey %s %s %d 6 1" % (o, hexs(bytes(15)), 15), "mk setkey %s %s 17 6 1" % (o, hexs(bytes(17))),
-              "mk setkey %s %s 16 %d 1" % (o, hexs(bytes(16)), rng.choice([0, 4, 9, 2**32 - 1])),
+              "mk setkey %s %s 16 %d %d" % (o, hexs(bytes(16)), rng.choice([0, 4, 9, 2**32 - 1]), rng.randint(0, 1)),
               "mk settweak %s %s %d" % (o, hexs(bytes(8)), rng.choice([0, 7, 9, 16, 2**32 - 1])),
+              "mk settweak %s - %d" % (o, rng.choice([0, 7, 9, 16])), "mk setkey %s - %d 6 1" % (o, rng.choice([0, 15, 17])),
               "mk setkey - %s 16 6 1" % hexs(bytes(16)), "mk settweak - %s 8" % hexs(bytes(8))]
     elif kind == "mc":
         L += ["mc setkey %s - 16 6" % o, "mc setkey %s %s 15 6" % (o, hexs(bytes(15))),
               "mc setkey %s %s 16 %d" % (o, hexs(bytes(16)), rng.choice([0, 4, 9])),
-              "mc settweak %s %s %d" % (o, hexs(bytes(8)), rng.choice([0, 7, 9])),
+              "mc settweak %s %s %d" % (o, hexs(bytes(8)), rng.choice([0, 7, 9])), "mc settweak %s - %d" % (o, rng.choice([0, 7, 9])),
+              "mc setctr %s - %d" % (o, rng.choice([9, big])),
               "mc setctr %s 00 %d" % (o, rng.choice([9, big])), "mc crypt %s - 3" % o, "mc crypt %s 01 1 outnull" % o,
               "mc crypt - 00 1", "mc init -", "mc setkey - %s 16 6" % hexs(bytes(16))]
     elif kind == "mp":
@@ -788,6 +804,10 @@ def gen_c14(rng, tier):
             elif r < 0.45 and needs_init:
                 if st["live"]:
                     s.add("%s cleanup %d" % (kind, o)); st["live"] = False; st["keyed"] = False
+                elif rng.random() < 0.4:
+                    # a failed initialisation, whatever the memory held before: the object must be inert
+                    s.add("new %s %d %02x" % (kind, o, rng.choice([0x00, 0xa5, 0xff, 0x01])))
+                    s.add("cfg failalloc 1"); s.add("%s init %d" % (kind, o)); s.add("cfg failalloc 0")
                 else:
                     s.add("%s init %d" % (kind, o)); st["live"] = True
             elif r < 0.5 and needs_init and not st["live"]:
@@ -884,4 +904,106 @@ def gen_mix(rng, tier):
     out += gen_c07(rng, "quick")
     out += gen_c10(rng, "quick")
     out += [(t[0], t[1], []) for t in gen_c15(rng, "quick")[:2]]
+    return out
+
+# ---------------------------------------------------------------- C19 (Arduino port)
+ARD_PLAIN = [("s128_128", "k128", 16, 16), ("s128_256", "k128", 16, 32), ("s128_384", "k128", 16, 48),
+             ("s64_64", "k64", 8, 8), ("s64_128", "k64", 8, 16), ("s64_192", "k64", 8, 24)]
+ARD_TWEAKED = [("s128_256t", "t128", 16, 16), ("s128_384t", "t128", 16, 32),
+               ("s64_128t", "t64", 8, 8), ("s64_192t", "t64", 8, 16)]
+def gen_c19(rng, tier):
+    """returns (title, arduino script, C-library script, pairs) where pairs = [(arduino line, C line)] whose `out` must agree,
+    and refs = [(arduino line, [C lines], data hex)] for narrow-counter CTR streams"""
+    out = []
+    n = 25 if tier == "quick" else 200
+    for cls, ck, bs, ksz in ARD_PLAIN:
+        a = S(); c = S(); pairs = []
+        a.add("new %s 1" % cls); k = c.new(ck)
+        for _ in range(n):
+            r = rng.random()
+            if r < 0.12:
+                bad = rng.choice([0, 1, ksz - 1, ksz + 1, ksz + bs, 64]); bad = bad if bad != ksz else ksz + 3
+                a.add("1 setkey %s" % hexs(rbytes(rng, bad)))          # wrong length: rejected, state unchanged
+            elif r < 0.2:
+                a.add("1 clear")
+                key = rbytes(rng, ksz); a.add("1 setkey %s" % hexs(key)); c.add("%s setkey %d %s %d" % (ck, k, hexs(key), ksz))
+            else:
+                key = rbytes(rng, ksz); a.add("1 setkey %s" % hexs(key)); c.add("%s setkey %d %s %d" % (ck, k, hexs(key), ksz))
+            for _ in range(rng.randint(1, 4)):
+                if len(a.lines) < 3 or not any(" setkey " in l and len(l.split()[2]) == 2 * ksz for l in a.lines):
+                    break
+                b = rbytes(rng, bs); d = rng.choice(["enc", "dec"])
+                pairs.append((a.add("1 %s %s" % (d, hexs(b))), c.add("%s %s %d %s" % (ck, d, k, hexs(b)))))
+        out.append((cls, a.text(), c.text(), pairs, []))
+    for cls, ck, bs, ksz in ARD_TWEAKED:
+        a = S(); c = S(); pairs = []
+        a.add("new %s 1" % cls); k = c.new(ck)
+        for _ in range(n):
+            key = rbytes(rng, ksz); a.add("1 setkey %s" % hexs(key)); c.add("%s settk %d %s %d" % (ck, k, hexs(key), ksz))
+            if rng.random() < 0.15:
+                a.add("1 setkey %s" % hexs(rbytes(rng, ksz + bs)))       # the plain-class length is wrong here
+            for _ in range(rng.randint(0, 6)):
+                r = rng.random()
+                if r < 0.15:
+                    a.add("1 settweak %s %d" % (hexs(rbytes(rng, bs)), rng.choice([0, 1, bs - 1, bs + 1, 2 * bs])))   # rejected
+                elif r < 0.3:
+                    a.add("1 settweak - %d" % bs); c.add("%s settweak %d - %d" % (ck, k, bs))
+                else:
+                    tw = rbytes(rng, bs); a.add("1 settweak %s %d" % (hexs(tw), bs)); c.add("%s settweak %d %s %d" % (ck, k, hexs(tw), bs))
+                b = rbytes(rng, bs); d = rng.choice(["enc", "dec"])
+                pairs.append((a.add("1 %s %s" % (d, hexs(b))), c.add("%s %s %d %s" % (ck, d, k, hexs(b)))))
+            b = rbytes(rng, bs)
+            pairs.append((a.add("1 enc %s" % hexs(b)), c.add("%s enc %d %s" % (ck, k, hexs(b)))))
+        out.append((cls, a.text(), c.text(), pairs, []))
+    # Mantis8
+    a = S(); c = S(); pairs = []
+    a.add("new mantis8 1"); k = c.new("mk")
+    for _ in range(n):
+        key = rbytes(rng, 16); a.add("1 setkey %s" % hexs(key)); c.add("mk setkey %d %s 16 8 1" % (k, hexs(key)))
+        if rng.random() < 0.2: a.add("1 setkey %s" % hexs(rbytes(rng, rng.choice([8, 15, 17, 32]))))
+        for _ in range(rng.randint(1, 8)):
+            r = rng.random()
+            if r < 0.25: a.add("1 swap"); c.add("mk swap %d" % k)
+            elif r < 0.35: a.add("1 settweak - 8"); c.add("mk settweak %d - 8" % k)
+            elif r < 0.45: a.add("1 settweak %s %d" % (hexs(rbytes(rng, 8)), rng.choice([0, 7, 9, 16])))
+            elif r < 0.7:
+                tw = rbytes(rng, 8); a.add("1 settweak %s 8" % hexs(tw)); c.add("mk settweak %d %s 8" % (k, hexs(tw)))
+            b = rbytes(rng, 8); d = rng.choice(["enc", "dec"])
+            pairs.append((a.add("1 %s %s" % (d, hexs(b))), c.add("mk crypt %d %s" % (k, hexs(b)))))
+    out.append(("mantis8", a.text(), c.text(), pairs, []))
+    # CTR<T>
+    for cls, ksz, tweaked in (("ctr_s128_128", 16, False), ("ctr_s128_256", 32, False), ("ctr_s128_384", 48, False),
+                              ("ctr_s128_256t", 16, True), ("ctr_s128_384t", 32, True)):
+        a = S(); c = S(); pairs = []; refs = []
+        a.add("new %s 1" % cls); k = c.new("c128"); kk = c.new("t128" if tweaked else "k128")
+        c.add("cfg backend " + rng.choice(["def", "v128", "v256"])); c.add("c128 init %d" % k)
+        for _ in range(max(4, n // 3)):
+            key = rbytes(rng, ksz); a.add("1 setkey %s" % hexs(key))
+            c.add("c128 %s %d %s %d" % ("settk" if tweaked else "setkey", k, hexs(key), ksz))
+            c.add("%s %s %d %s %d" % ("t128" if tweaked else "k128", "settk" if tweaked else "setkey", kk, hexs(key), ksz))
+            iv = bytearray(rbytes(rng, 16)); nff = rng.choice([0, 0, 1, 2, 5, 15, 16])
+            for i in range(nff): iv[15 - i] = 0xff
+            csize = rng.choice([16, 16, 16, 1, 2, 4, 8, 15]) 
+            a.add("1 setctrsize %d" % csize)
+            if rng.random() < 0.15: a.add("1 setctrsize %d" % rng.choice([0, 17, 100]))
+            if rng.random() < 0.15: a.add("1 setiv %s" % hexs(rbytes(rng, rng.choice([0, 8, 15, 17]))))
+            a.add("1 setiv %s" % hexs(bytes(iv))); c.add("c128 setctr %d %s 16" % (k, hexs(bytes(iv))))
+            total = rng.choice([0, 1, 15, 16, 17, 31, 33, 64, rng.randint(0, 300)]); data = rbytes(rng, total)
+            pos = 0; alines = []; clines = []
+            for n_ in cut_list(rng, total, 16, 16):
+                alines.append(a.add("1 crypt %s" % hexs(data[pos:pos + n_])))
+                if csize == 16:
+                    clines.append(c.add("c128 crypt %d %s %d" % (k, hexs(data[pos:pos + n_]), n_)))
+                pos += n_
+            if csize == 16:
+                pairs += list(zip(alines, clines))
+            else:
+                # narrow counter (Arduino-only): reference keystream from the C library's single-block function
+                ctrs = []; cur = bytes(iv)
+                for i in range((total + 15) // 16):
+                    ctrs.append(c.add("%s enc %d %s" % ("t128" if tweaked else "k128", kk, hexs(cur))))
+                    low = (int.from_bytes(cur[16 - csize:], "big") + 1) % (1 << (8 * csize))
+                    cur = cur[:16 - csize] + low.to_bytes(csize, "big")
+                refs.append((alines, ctrs, data.hex()))
+        out.append((cls, a.text(), c.text(), pairs, refs))
     return out
